@@ -424,9 +424,15 @@ unsafe fn emulate(regs: &mut Regs) -> Option<Trap> {
             let width: u64 = if op == 0xEC { 8 } else if opsize16 { 16 } else { 32 };
             let dev = c.pop_in();
             let rax = regs.get(0);
+            // `in al/ax` leave the rest of RAX as it was, and what was there before is whatever the
+            // caller's code happened to leave (the wrappers declare no input in RAX): the handler
+            // substitutes a fixed non-zero pattern for it, so that a wrapper which wrongly relies on the
+            // upper bits (e.g. treats the full EAX as the zero-extended value) shows it in every run
+            let _ = rax;
+            const STALE: u64 = 0x5A5A_A5A5_DEAD_BE00;
             let (val, newrax) = match width {
-                8 => (dev & 0xff, (rax & !0xff) | (dev & 0xff)),
-                16 => (dev & 0xffff, (rax & !0xffff) | (dev & 0xffff)),
+                8 => (dev & 0xff, (STALE & !0xff) | (dev & 0xff)),
+                16 => (dev & 0xffff, (STALE & !0xffff) | (dev & 0xffff)),
                 _ => (dev & 0xffff_ffff, dev & 0xffff_ffff),
             };
             regs.set(0, newrax);
